@@ -32,7 +32,11 @@ var c16dVocabulary = []string{
 	"delete-char", "backward-delete-char", "kill-line", "kill-word", "backward-kill-word", "unix-line-discard", "unix-word-rubout", "yank",
 	"clear-query", "change-query(ab)", "change-query(c d)", "put(e)", "put(a b)", "put( )", "put(日é)",
 	"toggle-sort", "change-multi(2)", "change-multi", "change-prompt(p> )", "toggle-search", "search(ab)", "exclude", "change-nth(2)", "change-nth()",
-	"toggle-track", "offset-up", "offset-down", "change-header(h)", "toggle-header", "toggle-input",
+	// (no toggle-track: where a tracked line has gone, the cursor falls back on its screen row, i.e. on the
+	// scroll offset, which depends on which intermediate lists happened to be drawn)
+	"offset-up", "offset-down", "change-header(h)", "toggle-header", "toggle-input",
+	// commands: what gets started must be the same either way (a local listener may run them)
+	"preview(PVD {n})", "change-preview(PVE {n})", "execute-silent(EXD {n})",
 }
 
 func genC16dPlan(r *zsim.Rng) *c16dPlan {
@@ -70,6 +74,9 @@ func genC16dPlan(r *zsim.Rng) *c16dPlan {
 type c16dSnap struct {
 	ok    bool
 	state string
+	pv    string // last preview command started
+	pvCmp bool   // comparable: the window is visible and a line is under the cursor
+	cy    int
 }
 
 func c16dSnapshot(r *sysRun) c16dSnap {
@@ -78,8 +85,24 @@ func c16dSnapshot(r *sysRun) c16dSnap {
 		return c16dSnap{}
 	}
 	t := r.t
-	return c16dSnap{ok: true, state: fmt.Sprintf("query=%q cx=%d cy=%d selected=%v matches=%v sort=%v multi=%d paused=%v prompt=%q header_visible=%v input_hidden=%v",
-		st.Query, st.Cx, st.Cy, st.Selected, st.Matches, st.Sort, t.multi, st.Paused, t.promptString, t.headerVisible, t.inputless)}
+	// foreground commands run inside the action list: all of them, in order. Preview commands are started
+	// asynchronously (one may or may not be started for a state that is about to change): only the last one,
+	// which at rest belongs to the current state, is compared.
+	var cmds []string
+	lastPV := ""
+	for _, p := range r.os.Snapshot() {
+		if p.Parent != nil {
+			continue
+		}
+		if strings.HasPrefix(p.Command, "PV") {
+			lastPV = p.Command
+		} else {
+			cmds = append(cmds, p.Command)
+		}
+	}
+	pvCmp := len(st.Matches) > 0 && t.hasPreviewWindow()
+	return c16dSnap{ok: true, state: fmt.Sprintf("query=%q cx=%d selected=%v matches=%v sort=%v multi=%d paused=%v prompt=%q header_visible=%v input_hidden=%v commands_started=%q",
+		st.Query, st.Cx, st.Selected, st.Matches, st.Sort, t.multi, st.Paused, t.promptString, t.headerVisible, t.inputless, cmds), pv: lastPV, pvCmp: pvCmp, cy: st.Cy}
 }
 
 // c16dSession runs one session; deliver(i) hands over step i and returns false if it could not.
@@ -200,6 +223,24 @@ func runC16d(c *runCtx) {
 			continue
 		}
 		compared++
+		if a[i].cy != b[i].cy {
+			// The list cursor is clamped against every list that arrives. A list of actions that changes what
+			// is searched more than once (query edit, change-nth, exclude, sort, search ...) may or may not
+			// see the intermediate result, depending on timing - in either session. From there on the two
+			// sessions are not comparable any more.
+			if i > 0 && i-1 < len(plan.Steps) && c16dListChanges(plan.Steps[i-1]) >= 2 {
+				c.count("probe.cursor_timing_dependent", 1)
+				break
+			}
+			c.violate("c16d.differs", "after action list #%d %q the list cursor is at %d in the session fed by POST and at %d in the one fed by --bind (state %s)", i, plan.Steps[maxInt(i-1, 0)%maxInt(len(plan.Steps), 1)], a[i].cy, b[i].cy, a[i].state)
+			return
+		}
+		if a[i].pvCmp && b[i].pvCmp && a[i].pv != b[i].pv {
+			// at rest, with the preview window shown and a line under the cursor, the preview command that ran
+			// last belongs to that line - whichever way the actions came in
+			c.violate("c16d.preview", "after action list #%d the last preview command started is %q in the session fed by POST and %q in the one fed by --bind (list cursor %d, state %s)", i, a[i].pv, b[i].pv, a[i].cy, a[i].state)
+			return
+		}
 		if a[i].state != b[i].state {
 			step := "(initial state)"
 			if i > 0 && i-1 < len(plan.Steps) {
@@ -214,6 +255,18 @@ func runC16d(c *runCtx) {
 		c.count("nontrivial", 1)
 	}
 	c.state = fmt.Sprintf("steps=%d compared=%d", len(plan.Steps), compared)
+}
+
+// c16dListChanges counts the actions of a list that start a new search.
+func c16dListChanges(step string) int {
+	n := 0
+	for _, a := range strings.Split(step, "+") {
+		switch {
+		case isEditAction(a), strings.HasPrefix(a, "change-nth"), a == "exclude", a == "toggle-sort", strings.HasPrefix(a, "search("), a == "toggle-search":
+			n++
+		}
+	}
+	return n
 }
 
 func init() {
